@@ -42,6 +42,9 @@ def oracle_sets(db, roots):
     return required, allowed
 
 
+VOLATILE_TAGS = (vber.T_COUNTER, vber.T_GAUGE, vber.T_TICKS, vber.T_COUNTER64)
+
+
 def _listing_orders(roots, limit=6):
     """Deterministic set of listing orders for the metamorphic relation:
     sorted, reversed, rotations (all permutations when n <= 3)."""
@@ -78,6 +81,9 @@ def walk_once(case, roots, api, what="walk", bulk=None):
     agent, client = vworld.make_world(case["proto"], db, request_cap=cap,
                                       bulk_script=[tuple(p) for p in case.get("bulk_script", [])],
                                       early_stop=case.get("early_stop", True))
+    # a live device: counters, gauges and time ticks move on with every read, so the same instance read twice within one
+    # response (two columns running into the same OID) carries two different values
+    agent.volatile = bool(case.get("volatile"))
     try:
         if bulk is None:
             got = vworld.run(_do_walk(client, api, roots))
@@ -105,6 +111,8 @@ def walk_once(case, roots, api, what="walk", bulk=None):
             obs = (tname, val)
         if o_t in out:
             return None, None, "%s yielded %s twice" % (what, vagent.S(o_t)), agent
+        if agent.volatile and db.get(o_t, (None,))[0] in VOLATILE_TAGS:
+            obs = (obs[0], ("volatile", type(obs[1]).__name__))
         out[o_t] = obs
         order.append(o_t)
     return out, order, None, agent
@@ -127,6 +135,8 @@ def check_against_db(case, roots, got, order, what, pythonic=False):
             exp = ("py", vber.pythonized(tag, content))
         else:
             exp = vber.typed_value(tag, content)
+        if case.get("volatile") and tag in VOLATILE_TAGS:
+            exp = (exp[0], ("volatile", type(exp[1]).__name__))      # the value moves, its type does not
         if obs != exp or type(obs[1]) is not type(exp[1]):
             return "%s yielded %s = %r, the agent holds %r" % (what, vagent.S(o), obs, exp)
     if len(roots_t) == 1 and order != sorted(order):
@@ -159,6 +169,8 @@ def classify(case):
     if case["proto"]["v"] == "3":
         flags.add("v3")
     flags.add("api=" + case["api"])
+    if case.get("volatile"):
+        flags.add("volatile_values")
     return nontrivial, sorted(flags)
 
 
@@ -209,6 +221,7 @@ def cases(draw, v3_weight=1):
         api = draw(st.sampled_from(["multiwalk", "multiwalk", "multiwalk", "pymultiwalk"]))
     w["proto"] = p
     w["api"] = api
+    w["volatile"] = draw(st.sampled_from([False, False, True]))
     return w
 
 
